@@ -180,6 +180,7 @@ func init() {
 			return []HarnessSpec{
 				{Pkg: "internal/validator", Fn: "VerifC06Generate", Native: "VerifC06GenerateNative", Reach: []string{"generated-twice"}, Bounds: map[string]any{"profiles": 4, "map_orders": "all maps reversed | all rotated | one iteration site arbitrarily permuted (n<=4: all n!)"}},
 				{Pkg: "internal/validator", Fn: "VerifC06Report", Reach: []string{"built-twice"}, Bounds: map[string]any{"results": "1..2 violations + 1 warning, nested sub-results and locations"}},
+				{Pkg: "internal/validator", Fn: "VerifC06Index", Native: "VerifC06IndexNative", Reach: []string{"indexed-twice"}, Bounds: map[string]any{"graph": "2 domain nodes, an element with lexical entries in one or two source maps, one or two source-information nodes"}},
 				{Pkg: "pkg", Fn: "VerifC06NoHiddenState", Native: "VerifC06NoHiddenStateNative", Reach: []string{"returned"}, Bounds: map[string]any{"entry_points": 4, "profiles": "5 small (valid and failing) + 1 using most of the profile language with declared prefixes"}},
 			}
 		},
